@@ -126,7 +126,7 @@ def hook_run(reqs, env=None):
     e = dict(os.environ)
     if env: e.update(env)
     try:
-        p = subprocess.run([hook], input=inp, stdout=subprocess.PIPE, stderr=subprocess.PIPE, timeout=600, env=e)
+        p = subprocess.run([hook], input=inp, stdout=subprocess.PIPE, stderr=subprocess.PIPE, timeout=600, env=e, preexec_fn=common.limit_mem())
     except subprocess.TimeoutExpired as ex:
         return {}, "TIMEOUT (deadlock?)", (ex.stdout or b"")
     out = {}
@@ -562,7 +562,7 @@ def batch_env(reqs, env_extra, nproc=8, timeout=240):
         while todo:
             inp = "".join(json.dumps(r) + "\n" for r in todo).encode()
             try:
-                p = subprocess.run([hook], input=inp, stdout=subprocess.PIPE, stderr=subprocess.PIPE, env=env, timeout=timeout)
+                p = subprocess.run([hook], input=inp, stdout=subprocess.PIPE, stderr=subprocess.PIPE, env=env, timeout=timeout, preexec_fn=common.limit_mem())
                 out = p.stdout; err = p.stderr.decode("utf8", "replace"); rc = p.returncode
             except subprocess.TimeoutExpired as e:
                 out = e.stdout or b""; err = "TIMEOUT"; rc = -9
